@@ -40,6 +40,15 @@ ASSUMPTIONS = ['GF values are symmetric: G(d) = G(-d) (the package symmetrises G
                'rateexpansions/biasexpansions with an omega2 network are only checked with omega2=True (documented use)']
 
 CAP = {'quick': 360, 'thorough': 620}       # states; above: case not enumerated (listed in BOUNDS)
+EFFCAP = 8000      # states x (holohedry order / |G|): the dense GF expansion has (dim x states / |stabiliser|)^2 x (difference stars)
+                   # entries; without symmetry 409 states (P1_3, N=3) need > 30 GB.  Above: not enumerated (listed in BOUNDS)
+
+
+def _toobig(name, ic, N, tier):
+    n = _size(name, ic, N)
+    crys = catalog.get(name)
+    return n > CAP[tier] or n * (48 if crys.dim == 3 else 12) / len(crys.G) > EFFCAP
+
 TOL = 1e-9
 
 
@@ -67,7 +76,7 @@ def _size(name, ic, N):
 
 
 def BOUNDS(tier):
-    skipped = ['{}:c{}:N{}'.format(n, ic, N) for n, ic in _nets(tier) for N in _NS(tier) if _size(n, ic, N) > CAP[tier]]
+    skipped = ['{}:c{}:N{}'.format(n, ic, N) for n, ic in _nets(tier) for N in _NS(tier) if _toobig(n, ic, N, tier)]
     return {'crystals': sorted(set(n for n, _ in _nets(tier))), 'networks': len(_nets(tier)), 'Nshells': list(_NS(tier)),
             'originstates': [False, True], 'state_cap': CAP[tier], 'not_enumerated_over_cap': skipped,
             'numbers': 'pairstates.generic(class key): exp(-frac(...)) in (0.37,1], distinct per class; GF values symmetric under negation',
@@ -79,7 +88,7 @@ def cases(tier):
     for name, ic in _nets(tier):
         for N in _NS(tier):
             n = _size(name, ic, N)
-            if n > CAP[tier]: continue
+            if _toobig(name, ic, N, tier): continue
             for o in (0, 1):
                 out.append({'key': '{}:c{}:N{}:o{}'.format(name, ic, N, o), 'name': name, 'icut': ic, 'N': N, 'origin': o,
                             'cost': float(n) ** 2})
